@@ -466,3 +466,146 @@ def masked(h):
     h.check('decorated-function-gets-the-vector-with-the-masked-values-inserted', 'ok',
             ok=(len(calls) == 1 and got is not None and len(got) == total and all(g is w for g, w in zip(got, want))))
     h.check('input-vector-not-modified', 'ok', ok=(list(h.st.heap[x]) == xs or all(a is b for a, b in zip(h.st.heap[x], xs))))
+
+
+BOUNDS_FORMS = ['one-interval', 'two-intervals', 'open-below', 'open-above']
+
+
+@contract('C16/constraints.bounded/clip-to-nearest', ['C16', 'C02', 'C03'], K + 'bounded', samples=200)
+def bounded_clip(h):
+    """bounded(seq, bounds, index, clip=True, nearest=True) at three entries, all values, one interval [lo, hi] (a side
+    may be None = open) or two disjoint intervals [lo, hi] < [lo2, hi2]: every SELECTED entry that lies in no interval is
+    moved onto the interval end nearest to it (ends of the interval whose lower / upper end is nearest, as the code picks
+    them: the clipped value lies in the target set), every entry that lies in an interval -- ON an end included -- and
+    every unselected entry is unchanged"""
+    form = h.choice('bounds_form', BOUNDS_FORMS)
+    idx = h.choice('index', [None, (0, 2), 1])
+    lo, hi = h.real('lo'), h.real('hi')
+    h.assume('lo <= hi', lo=lo, hi=hi)
+    if form == 'two-intervals':
+        lo2, hi2 = h.real('lo2'), h.real('hi2')
+        h.assume('hi < lo2 and lo2 <= hi2', hi=hi, lo2=lo2, hi2=hi2)
+        bounds = h.clist([h.tup(lo, hi), h.tup(lo2, hi2)])
+        inside = '(lo <= v and v <= hi) or (lo2 <= v and v <= hi2)'
+    elif form == 'open-below':
+        bounds = h.tup(None, hi)
+        inside = 'v <= hi'
+    elif form == 'open-above':
+        bounds = h.tup(lo, None)
+        inside = 'lo <= v'
+    else:
+        bounds = h.tup(lo, hi)
+        inside = 'lo <= v and v <= hi'
+    x = h.vec('x', 3)
+    x0 = h.snapshot(x)
+    r = h.call(h.get(K + 'bounded'), x, bounds, idx, True, True)
+    sel = range(3) if idx is None else ((idx,) if isinstance(idx, int) else idx)
+    for i in range(3):
+        e = dict(v=h.ev('x0[%d]' % i, x0=x0), y=h.ev('r[%d]' % i, r=r), lo=lo, hi=hi)
+        if form == 'two-intervals':
+            e.update(lo2=lo2, hi2=hi2)
+        if i not in sel:
+            h.check('unselected-entries-unchanged', 'y == v', **e)
+            continue
+        h.check('entries-inside-an-interval-unchanged', 'implies(%s, y == v)' % inside, **e)
+        h.check('entries-outside-land-in-the-target-set', inside.replace('v', 'y'), **e)
+        if form == 'one-interval':
+            h.check('clipped-at-the-nearest-end', 'y == (lo if v < lo else (hi if v > hi else v))', **e)
+        elif form == 'two-intervals':
+            h.check('below-all-or-above-all-clipped-at-the-outer-end', 'implies(v < lo, y == lo) and implies(v > hi2, y == hi2)', **e)
+            h.check('in-the-gap-clipped-at-an-end-of-the-gap', 'implies(hi < v and v < lo2, y == hi or y == lo2)', **e)
+    h.check('result-has-three-entries', 'len(r) == 3', r=r)
+    h.check('callers-sequence-not-modified', 'seq_eq(x, x0)', x=x, x0=x0)
+
+
+@contract('C16/constraints.bounded/redraw-inside', ['C16', 'C02', 'C03'], K + 'bounded', native=False)
+def bounded_redraw(h):
+    """bounded(..., clip=False): a selected entry that lies in no interval is REPLACED by a drawn value inside an interval
+    (nearest=True: the interval nearest to it; False: any of them); an entry that lies in an interval -- ON an end
+    included -- and every unselected entry is unchanged, so a point that satisfies the bounds is a fixed point whatever is
+    drawn (the idempotence the solvers' and_(constraints, bounds) coupling relies on)"""
+    if not h.is_sym():
+        h.unsupported('symbolic only')
+    form = h.choice('bounds_form', ['one-interval', 'two-intervals'])
+    nearest = h.choice('nearest', [True, False])
+    idx = h.choice('index', [None, (0, 2)])
+    lo, hi = h.real('lo'), h.real('hi')
+    h.assume('lo <= hi and -1000000 <= lo and hi <= 1000000', lo=lo, hi=hi)
+    if form == 'two-intervals':
+        lo2, hi2 = h.real('lo2'), h.real('hi2')
+        h.assume('hi < lo2 and lo2 <= hi2 and hi2 <= 1000000', hi=hi, lo2=lo2, hi2=hi2)
+        bounds = h.clist([h.tup(lo, hi), h.tup(lo2, hi2)])
+        inside = '(lo <= v and v <= hi) or (lo2 <= v and v <= hi2)'
+    else:
+        bounds = h.tup(lo, hi)
+        inside = 'lo <= v and v <= hi'
+    x = h.vec('x', 3)
+    x0 = h.snapshot(x)
+    r = h.call(h.get(K + 'bounded'), x, bounds, idx, False, nearest)
+    sel = range(3) if idx is None else idx
+    for i in range(3):
+        e = dict(v=h.ev('x0[%d]' % i, x0=x0), y=h.ev('r[%d]' % i, r=r), lo=lo, hi=hi)
+        if form == 'two-intervals':
+            e.update(lo2=lo2, hi2=hi2)
+        if i not in sel:
+            h.check('unselected-entries-unchanged', 'y == v', **e)
+            continue
+        h.check('entries-inside-an-interval-unchanged', 'implies(%s, y == v)' % inside, **e)
+        h.check('entries-outside-are-redrawn-inside-the-target-set', inside.replace('v', 'y'), **e)
+        if form == 'two-intervals' and nearest:
+            h.check('redrawn-in-the-nearest-interval', 'implies(v < lo, y <= hi) and implies(v > hi2, y >= lo2)', **e)
+    h.check('callers-sequence-not-modified', 'seq_eq(x, x0)', x=x, x0=x0)
+
+
+@contract('C16/constraints.impose_bounds', ['C16', 'C02', 'C03'], K + 'impose_bounds.dec.func', native=False)
+def impose_bounds(h):
+    """the decorator routes every (selected index, its bounds) to bounded() -- whose own contract is above -- in the
+    clip / nearest mode currently set (func.clip(..) / func.nearest(..) switch it), chains the calls, and hands the
+    decorated function the result in the type of the input: bounds as a list apply to all entries (index None) or to each
+    selected index; bounds as a dict {index: bounds} apply per key, filtered by `index` when given"""
+    if not h.is_sym():
+        h.unsupported('symbolic only')
+    form = h.choice('bounds_given_as', ['pair-all', 'pair-index', 'dict', 'dict-filtered', 'dict-None-key-with-index'])
+    mode = h.choice('mode', ['default', 'clip=False', 'nearest=False-set-later'])
+    b0, b1 = h.tup(h.real('lo0'), h.real('hi0')), h.tup(h.real('lo1'), h.real('hi1'))
+    if form == 'pair-all':
+        bounds, index, want = b0, None, [(None, b0)]
+    elif form == 'pair-index':
+        bounds, index, want = b0, (0, 2), [(0, b0), (2, b0)]
+    elif form == 'dict':
+        bounds, index, want = h.st.alloc('dict', {0: b0, 2: b1}), None, [(0, b0), (2, b1)]
+    elif form == 'dict-filtered':
+        bounds, index, want = h.st.alloc('dict', {0: b0, 2: b1}), (2,), [(2, b1)]
+    else:
+        bounds, index, want = h.st.alloc('dict', {None: b0}), (1, 2), [(1, b0), (2, b0)]
+    calls = []
+    B = h.fn('BOUNDED', ret='same_nd')
+
+    results = []
+
+    def bounded_(I, c, args, kwargs):
+        calls.append(list(args))
+        results.append(I.call(B, [args[0], len(calls)], {}))
+        return results[-1]
+    h.set_summaries({('mystic/constraints.py', 'bounded'): bounded_})
+    f = h.fn('F', ret='real', log='fcalls')
+    kw = {'clip': False} if mode == 'clip=False' else {}
+    func = h.call(h.call(h.get(K + 'impose_bounds'), bounds, index, **kw), f)
+    if mode == 'nearest=False-set-later':
+        h.call(h.getattr(func, 'nearest'), False)
+    x = h.list_real('x')
+    h.call(func, x)
+    clip_w, near_w = (mode != 'clip=False'), (mode != 'nearest=False-set-later')
+    ok = len(calls) == len(want)
+    if ok:
+        for n_, (c_, (i_, b_)) in enumerate(zip(calls, want)):
+            ok = ok and c_[1] is b_ and c_[2] == i_ and c_[3] is clip_w and c_[4] is near_w
+    h.check('one-bounded-call-per-selected-index-with-its-bounds-in-the-current-mode', 'ok', ok=ok)
+    if not ok:
+        return
+    h.check('the-calls-are-chained-from-the-input', 'ok',
+            ok=(calls[0][0] is x and all(calls[n_][0] is results[n_ - 1] for n_ in range(1, len(calls)))))
+    fc = h.log('fcalls')
+    last = results[-1]
+    h.check('decorated-function-gets-the-bounded-vector-as-a-list', 'len(fc) == 1 and seq_eq(fc[0][0], last) and not isarr', fc=fc, last=last,
+            isarr=bool(getattr(fc[0][0], 'nd', False)) if len(fc) == 1 else False)
